@@ -7,9 +7,31 @@
 // ---------------------------------------------------------------------------------------------
 use vek::vec::repr_c::{Vec2, Vec3, Vec4, Vec8, Rgba, Extent2};
 
+/// Recording lane type for the routing harnesses: every operation returns a value that encodes which
+/// operation was applied to which operands (injective in (op, self, first bound, second bound)).
+#[derive(Clone, Copy, PartialEq, Eq)]
+struct Rec { op: u8, a: u8, b: u8, c: u8 }
+impl Rec {
+    fn any() -> Self { Rec { op: 0, a: kani::any(), b: 0, c: 0 } }
+    fn rec(op: u8, s: Rec, x: Rec, y: Rec) -> Rec { Rec { op, a: s.a, b: x.a, c: y.a } }
+    fn between(s: Rec, x: Rec, y: Rec) -> bool { (s.a ^ x.a.rotate_left(3) ^ y.a.rotate_left(5)) & 1 == 1 }
+}
+impl Wrap for Rec {
+    fn wrapped(self, upper: Self) -> Self { Rec::rec(1, self, upper, upper) }
+    fn wrapped_between(self, lower: Self, upper: Self) -> Self { Rec::rec(2, self, lower, upper) }
+    fn pingpong(self, upper: Self) -> Self { Rec::rec(3, self, upper, upper) }
+}
+impl Clamp for Rec {
+    fn clamped(self, lower: Self, upper: Self) -> Self { Rec::rec(4, self, lower, upper) }
+}
+impl IsBetween for Rec {
+    type Output = bool;
+    fn is_between(self, lower: Self, upper: Self) -> bool { Rec::between(self, lower, upper) }
+}
+
 macro_rules! c17_vec_lift {
     (vec: $V:ident, fields: ($($f:tt)+), new: ($($a:ident)+),
-     clamp_i8: $h_ci8:ident, clamp_u8: $h_cu8:ident, wrap_u8: $h_wu8:ident, wrap_i8_safe: $h_wi8:ident,
+     clamp_i8: $h_ci8:ident, clamp_u8: $h_cu8:ident, wrap_u8: $h_wu8:ident, wrap_i8_safe: $h_wi8:ident, routing: $h_route:ident,
      clamp_panics: $h_cp:ident, is_between_panics: $h_bp:ident, wrap_panics: $h_wp:ident,
      wrap_between_panics: $h_wbp:ident, pingpong_panics: $h_ppp:ident) => {
         #[kani::proof]
@@ -47,6 +69,9 @@ macro_rules! c17_vec_lift {
             let b: $V<bool> = v.is_between(slo, shi);
             $( assert!(b.$f == (slo <= v.$f && v.$f <= shi)); )+
         }
+        /// real u8 lanes against the scalar LAW (range + congruence / triangle wave), vector bounds.
+        /// (Comparing with a second call of the scalar vek function would force the SAT solver to prove
+        /// two independent divider circuits equivalent, which is much slower than checking the law.)
         #[kani::proof]
         fn $h_wu8() {
             let v: $V<u8> = $V::new($({ let $a: u8 = kani::any(); $a }),+);
@@ -54,23 +79,15 @@ macro_rules! c17_vec_lift {
             let hi: $V<u8> = $V::new($({ let $a: u8 = kani::any(); $a }),+);
             kani::assume(true $(&& lo.$f < hi.$f)+);
             let w = v.wrapped(hi);
-            $( assert!(w.$f == v.$f.wrapped(hi.$f)); )+
+            $( assert!(w.$f < hi.$f && (v.$f.w() - w.$f.w()) % hi.$f.w() == 0); )+
             let w = v.wrapped_between(lo, hi);
-            $( assert!(w.$f == v.$f.wrapped_between(lo.$f, hi.$f)); )+
-            let (slo, shi): (u8, u8) = (kani::any(), kani::any());
-            kani::assume(slo < shi);
-            let w = v.wrapped(shi);
-            $( assert!(w.$f == v.$f.wrapped(shi)); )+
-            let w = v.wrapped_between(slo, shi);
-            $( assert!(w.$f == v.$f.wrapped_between(slo, shi)); )+
+            $( assert!(lo.$f <= w.$f && w.$f < hi.$f && (v.$f.w() - w.$f.w()) % (hi.$f.w() - lo.$f.w()) == 0); )+
             // pingpong: period 2*upper must be representable
-            kani::assume(shi <= 127 $(&& hi.$f <= 127)+);
+            kani::assume(true $(&& hi.$f <= 127)+);
             let w = v.pingpong(hi);
-            $( assert!(w.$f == v.$f.pingpong(hi.$f)); )+
-            let w = v.pingpong(shi);
-            $( assert!(w.$f == v.$f.pingpong(shi)); )+
+            $( { let m = v.$f.w() % (2 * hi.$f.w()); assert!(w.$f.w() == if m <= hi.$f.w() { m } else { 2 * hi.$f.w() - m }); } )+
         }
-        /// signed lanes, restricted to non-negative values (inside the scalar safe region)
+        /// real i8 lanes inside the scalar safe region (v >= -64, upper <= 63, for pingpong upper <= 31)
         #[kani::proof]
         fn $h_wi8() {
             let v: $V<i8> = $V::new($({ let $a: i8 = kani::any(); $a }),+);
@@ -78,11 +95,43 @@ macro_rules! c17_vec_lift {
             let hi: $V<i8> = $V::new($({ let $a: i8 = kani::any(); $a }),+);
             kani::assume(true $(&& 0 <= lo.$f && lo.$f < hi.$f && hi.$f <= 63 && v.$f >= -64)+);
             let w = v.wrapped(hi);
-            $( assert!(w.$f == v.$f.wrapped(hi.$f)); )+
+            $( assert!(0 <= w.$f && w.$f < hi.$f && (v.$f.w() - w.$f.w()) % hi.$f.w() == 0); )+
             let w = v.wrapped_between(lo, hi);
-            $( assert!(w.$f == v.$f.wrapped_between(lo.$f, hi.$f)); )+
+            $( assert!(lo.$f <= w.$f && w.$f < hi.$f && (v.$f.w() - w.$f.w()) % (hi.$f.w() - lo.$f.w()) == 0); )+
+            kani::assume(true $(&& hi.$f <= 31)+);
             let w = v.pingpong(hi);
-            $( assert!(w.$f == v.$f.pingpong(hi.$f)); )+
+            $( { let m = v.$f.w().rem_euclid(2 * hi.$f.w()); assert!(w.$f.w() == if m <= hi.$f.w() { m } else { 2 * hi.$f.w() - m }); } )+
+        }
+        /// Lane routing for ANY lane type: the lifts are generic in T, so instantiating T with a lane type
+        /// whose operations merely RECORD (operation, self, bounds) proves, by parametricity, that lane i of
+        /// the result is exactly `op(self_i, bounds_i)` for vector bounds and `op(self_i, bound)` for
+        /// broadcast scalar bounds -- for wrapped, wrapped_between, pingpong and clamped.
+        #[kani::proof]
+        fn $h_route() {
+            let v: $V<Rec> = $V::new($({ let $a = Rec::any(); $a }),+);
+            let lo: $V<Rec> = $V::new($({ let $a = Rec::any(); $a }),+);
+            let hi: $V<Rec> = $V::new($({ let $a = Rec::any(); $a }),+);
+            let (slo, shi) = (Rec::any(), Rec::any());
+            let w = v.wrapped(hi);
+            $( assert!(w.$f == Rec::rec(1, v.$f, hi.$f, hi.$f)); )+
+            let w = v.wrapped(shi);
+            $( assert!(w.$f == Rec::rec(1, v.$f, shi, shi)); )+
+            let w = v.wrapped_between(lo, hi);
+            $( assert!(w.$f == Rec::rec(2, v.$f, lo.$f, hi.$f)); )+
+            let w = v.wrapped_between(slo, shi);
+            $( assert!(w.$f == Rec::rec(2, v.$f, slo, shi)); )+
+            let w = v.pingpong(hi);
+            $( assert!(w.$f == Rec::rec(3, v.$f, hi.$f, hi.$f)); )+
+            let w = v.pingpong(shi);
+            $( assert!(w.$f == Rec::rec(3, v.$f, shi, shi)); )+
+            let w = v.clamped(lo, hi);
+            $( assert!(w.$f == Rec::rec(4, v.$f, lo.$f, hi.$f)); )+
+            let w = v.clamped(slo, shi);
+            $( assert!(w.$f == Rec::rec(4, v.$f, slo, shi)); )+
+            let b: $V<bool> = v.is_between(lo, hi);
+            $( assert!(b.$f == Rec::between(v.$f, lo.$f, hi.$f)); )+
+            let b: $V<bool> = v.is_between(slo, shi);
+            $( assert!(b.$f == Rec::between(v.$f, slo, shi)); )+
         }
         /// one inverted lane is enough to panic (every such input panics)
         #[kani::proof]
@@ -140,32 +189,32 @@ macro_rules! c17_vec_lift {
 }
 
 c17_vec_lift!(vec: Vec2, fields: (x y), new: (a b),
-    clamp_i8: c17_vec2_clamp_is_between_i8, clamp_u8: c17_vec2_clamp_is_between_u8, wrap_u8: c17_vec2_wrap_u8, wrap_i8_safe: c17_vec2_wrap_i8_safe_region,
+    clamp_i8: c17_vec2_clamp_is_between_i8, clamp_u8: c17_vec2_clamp_is_between_u8, wrap_u8: c17_vec2_wrap_u8, wrap_i8_safe: c17_vec2_wrap_i8_safe_region, routing: c17_vec2_lane_routing_any_scalar,
     clamp_panics: c17_vec2_clamped_panics_when_any_lane_inverted, is_between_panics: c17_vec2_is_between_panics_when_any_lane_inverted,
     wrap_panics: c17_vec2_wrapped_panics_when_any_upper_zero, wrap_between_panics: c17_vec2_wrapped_between_panics_when_any_lane_bad,
     pingpong_panics: c17_vec2_pingpong_panics_when_any_upper_not_positive);
 c17_vec_lift!(vec: Vec3, fields: (x y z), new: (a b c),
-    clamp_i8: c17_vec3_clamp_is_between_i8, clamp_u8: c17_vec3_clamp_is_between_u8, wrap_u8: c17_vec3_wrap_u8, wrap_i8_safe: c17_vec3_wrap_i8_safe_region,
+    clamp_i8: c17_vec3_clamp_is_between_i8, clamp_u8: c17_vec3_clamp_is_between_u8, wrap_u8: c17_vec3_wrap_u8, wrap_i8_safe: c17_vec3_wrap_i8_safe_region, routing: c17_vec3_lane_routing_any_scalar,
     clamp_panics: c17_vec3_clamped_panics_when_any_lane_inverted, is_between_panics: c17_vec3_is_between_panics_when_any_lane_inverted,
     wrap_panics: c17_vec3_wrapped_panics_when_any_upper_zero, wrap_between_panics: c17_vec3_wrapped_between_panics_when_any_lane_bad,
     pingpong_panics: c17_vec3_pingpong_panics_when_any_upper_not_positive);
 c17_vec_lift!(vec: Vec4, fields: (x y z w), new: (a b c d),
-    clamp_i8: c17_vec4_clamp_is_between_i8, clamp_u8: c17_vec4_clamp_is_between_u8, wrap_u8: c17_vec4_wrap_u8, wrap_i8_safe: c17_vec4_wrap_i8_safe_region,
+    clamp_i8: c17_vec4_clamp_is_between_i8, clamp_u8: c17_vec4_clamp_is_between_u8, wrap_u8: c17_vec4_wrap_u8, wrap_i8_safe: c17_vec4_wrap_i8_safe_region, routing: c17_vec4_lane_routing_any_scalar,
     clamp_panics: c17_vec4_clamped_panics_when_any_lane_inverted, is_between_panics: c17_vec4_is_between_panics_when_any_lane_inverted,
     wrap_panics: c17_vec4_wrapped_panics_when_any_upper_zero, wrap_between_panics: c17_vec4_wrapped_between_panics_when_any_lane_bad,
     pingpong_panics: c17_vec4_pingpong_panics_when_any_upper_not_positive);
 c17_vec_lift!(vec: Vec8, fields: (0 1 2 3 4 5 6 7), new: (a b c d e f g h),
-    clamp_i8: c17_vec8_clamp_is_between_i8, clamp_u8: c17_vec8_clamp_is_between_u8, wrap_u8: c17_vec8_wrap_u8, wrap_i8_safe: c17_vec8_wrap_i8_safe_region,
+    clamp_i8: c17_vec8_clamp_is_between_i8, clamp_u8: c17_vec8_clamp_is_between_u8, wrap_u8: c17_vec8_wrap_u8, wrap_i8_safe: c17_vec8_wrap_i8_safe_region, routing: c17_vec8_lane_routing_any_scalar,
     clamp_panics: c17_vec8_clamped_panics_when_any_lane_inverted, is_between_panics: c17_vec8_is_between_panics_when_any_lane_inverted,
     wrap_panics: c17_vec8_wrapped_panics_when_any_upper_zero, wrap_between_panics: c17_vec8_wrapped_between_panics_when_any_lane_bad,
     pingpong_panics: c17_vec8_pingpong_panics_when_any_upper_not_positive);
 c17_vec_lift!(vec: Rgba, fields: (r g b a), new: (a b c d),
-    clamp_i8: c17_rgba_clamp_is_between_i8, clamp_u8: c17_rgba_clamp_is_between_u8, wrap_u8: c17_rgba_wrap_u8, wrap_i8_safe: c17_rgba_wrap_i8_safe_region,
+    clamp_i8: c17_rgba_clamp_is_between_i8, clamp_u8: c17_rgba_clamp_is_between_u8, wrap_u8: c17_rgba_wrap_u8, wrap_i8_safe: c17_rgba_wrap_i8_safe_region, routing: c17_rgba_lane_routing_any_scalar,
     clamp_panics: c17_rgba_clamped_panics_when_any_lane_inverted, is_between_panics: c17_rgba_is_between_panics_when_any_lane_inverted,
     wrap_panics: c17_rgba_wrapped_panics_when_any_upper_zero, wrap_between_panics: c17_rgba_wrapped_between_panics_when_any_lane_bad,
     pingpong_panics: c17_rgba_pingpong_panics_when_any_upper_not_positive);
 c17_vec_lift!(vec: Extent2, fields: (w h), new: (a b),
-    clamp_i8: c17_extent2_clamp_is_between_i8, clamp_u8: c17_extent2_clamp_is_between_u8, wrap_u8: c17_extent2_wrap_u8, wrap_i8_safe: c17_extent2_wrap_i8_safe_region,
+    clamp_i8: c17_extent2_clamp_is_between_i8, clamp_u8: c17_extent2_clamp_is_between_u8, wrap_u8: c17_extent2_wrap_u8, wrap_i8_safe: c17_extent2_wrap_i8_safe_region, routing: c17_extent2_lane_routing_any_scalar,
     clamp_panics: c17_extent2_clamped_panics_when_any_lane_inverted, is_between_panics: c17_extent2_is_between_panics_when_any_lane_inverted,
     wrap_panics: c17_extent2_wrapped_panics_when_any_upper_zero, wrap_between_panics: c17_extent2_wrapped_between_panics_when_any_lane_bad,
     pingpong_panics: c17_extent2_pingpong_panics_when_any_upper_not_positive);
